@@ -504,6 +504,11 @@ def rule_r9(facts, col):
                         and (r.q or "").split("::")[-1] in ("wait", "wait_for_read", "wait_for_write") for r in rets):
             col.ok("C04.R9", key, body.where(), "delegates to %s with the same need" % rets[0].q)
             continue
+        if not forced and any((t["f"].get("name") == "cmp") and any(peel(x, through_try=False).k == "param" and peel(x, through_try=False).idx == 2
+                                                                     for a in t["args"] for x in walk(body.operand_expr(a)))
+                              for _, t in body.calls()):
+            col.silent("C04.R9", key, body.where(), "amount compared with `need` through Ord::cmp (three-way): not followed")
+            continue
         bad_ret = []
 
         def seen(b2, v, bad_ret=bad_ret):
